@@ -481,6 +481,12 @@ func runHistory(h rhistory) (res renderOutcome) {
 				fail("C07", "a flush did not paint the latest view although it differs from what is on screen", fmt.Sprintf("%q", lastWritten), "no output")
 			}
 		}
+		if (o.op == "f" || o.op == "st") && !before.AltScreenActive && len(queued) > 0 && before.Buf != "" && !rendered {
+			// C14: a flush of a pending view prints the queued lines, also when the view itself
+			// is byte-identical to the one on screen
+			fail("C14", "a printed line was not shown by the next flush of a pending view (it stays queued; lost if the program ends now)",
+				fmt.Sprintf("%d queued lines printed above the view", len(queued)), "the flush wrote nothing")
+		}
 		if !rendered {
 			if o.op == "f" && len(written) != 0 && !(before.Buf != "" && before.Buf != before.LastRender) {
 				fail("C19", "flush of an unchanged (or empty) frame wrote bytes", "no output", hexOf(written))
